@@ -29,7 +29,8 @@ export function merge(original: any, update: any): any {
           merged.push(original[i]);
         }
       } else if (x === -1) {
-        merged.push(undefined);
+        // A new element that has no entry of its own in the update is null.
+        merged.push(null);
       } else {
         merged.push(original[x]);
       }
